@@ -23,7 +23,7 @@ theorem intern_sat {m lvl : Nat} {P : PS → Prop} (sn : SNode)
   cases hi : internIdx sn s.store 0 with
   | some i => exact ⟨Ext.refl _ _ _, hinv, trivial⟩
   | none =>
-    refine ⟨Ext.of_heap_eq rfl, ⟨hinv.closed, hinv.du, ?_, hinv.cache, hinv.mpos⟩, trivial⟩
+    refine ⟨Ext.of_heap_eq rfl ⟨[sn], rfl⟩, ⟨hinv.closed, hinv.du, ?_, hinv.cache, hinv.mpos⟩, trivial⟩
     intro x hx
     rcases List.mem_append.mp hx with h | h
     · exact hinv.flat x h
@@ -120,7 +120,7 @@ theorem cacheAdd_sat {m lvl : Nat} (n a : Nat) :
     Sat m lvl (fun s => SharedA s.heap a) (cacheAdd n a) (fun _ _ => True) := by
   intro s hinv hs
   unfold cacheAdd
-  refine ⟨Ext.of_heap_eq (by split <;> rfl), ?_, trivial⟩
+  refine ⟨Ext.of_heap_eq (by split <;> rfl) ⟨[], by split <;> simp⟩, ?_, trivial⟩
   split
   · refine ⟨hinv.closed, hinv.du, hinv.flat, ?_, hinv.mpos⟩
     intro k b hkb
